@@ -421,3 +421,35 @@ def dropped_file_histories(tier, seed=1):
                    "streams": [{"name": "a", "runs": [[f.next(), size // 2], [f.next(), size - size // 2]]},
                                {"name": "b", "runs": [[f.next(), 200]]}], "ops": ops})
     return hs
+
+
+def dirty_growth_histories(tier):
+    """C08 through one handle that still holds UNWRITTEN data: write, cut, append a little, grow - with no flush
+    in between - then read everything back through the same handle, flush, and read through a fresh handle and
+    from the file.  The grown range must be zeros although the handle's buffer held other bytes there before."""
+    hs = []
+    f = gens.Fill()
+    i = 0
+    grid = [(n1, s1, b, s2) for n1 in (3000, 700, 5000) for s1 in (0, 64, 100, 1000) for b in (1, 10)
+            for s2 in (s1 + b + 1, 500, 1024, 4096, 5000) if s1 < n1 and s2 > s1 + b]
+    for ver in (3, 4):
+        for j, (n1, s1, b, s2) in enumerate(grid):
+            if tier == "quick" and (j + ver) % 3:
+                continue
+            mb = CONFIGS[j % len(CONFIGS)]
+            init = [0, 300, 2000][j % 3]
+            ops = [{"op": "open"}, {"op": "open_stream", "name": "a"}]
+            if j % 2:
+                ops += [{"op": "read_to_end"}, {"op": "seek", "whence": "start", "d": 0, "sym": ""}]
+            ops += [{"op": "write_all", "runs": [[f.next(), n1 // 2], [f.next(), n1 - n1 // 2]]}, {"op": "len"},
+                    {"op": "set_len", "n": s1}, {"op": "position"}, {"op": "len"},
+                    {"op": "write_all", "runs": [[f.next(), b]]}, {"op": "position"}, {"op": "len"},
+                    {"op": "set_len", "n": s2}, {"op": "position"}, {"op": "len"},
+                    {"op": "seek", "whence": "start", "d": 0, "sym": ""}, {"op": "read_to_end"},
+                    {"op": "flush"}, {"op": "fresh_read"},
+                    {"op": "set_len", "n": s2 + 70}, {"op": "seek", "whence": "start", "d": 0, "sym": ""}, {"op": "read_to_end"},
+                    {"op": "flush"}, {"op": "fresh_read"}]
+            hs.append({"id": f"dg{i}", "ver": ver, "maxbuf": mb, "mode": "plain",
+                       "streams": [{"name": "a", "runs": [[f.next(), init]] if init else []}], "ops": ops})
+            i += 1
+    return hs
